@@ -190,15 +190,17 @@ def rule_fuse(repo, rep):
     ok = len(elem) == 1
     if ok:
         cj = [norm(v) for v in elem[0].test.values] if isinstance(elem[0].test, ast.BoolOp) else []
-        need = ["len(inp.tens.consumer_list) == 1", "len(outp.tens.ops) == 1", "not inp.tens.ifm_write_protected", "inp.tens.dtype == outp.tens.dtype", "inp.tens.format == outp.tens.format"]
+        need = ["len(inp.tens.consumer_list) == 1", "len(outp.tens.ops) == 1", "not inp.tens.ifm_write_protected", "inp.tens.dtype == outp.tens.dtype", "inp.tens.format == outp.tens.format",
+                "not inp.tens.is_variable"]
         missing = [x for x in need if x not in cj]
         rep.check(not missing and isinstance(elem[0].test.op, ast.And), "C12-d", f"{LR}:_get_ifm_to_fuse",
-                  "elementwise in-place reuse requires: one consumer entry (subgraph-output markers count), one producer, not write protected, same dtype and format",
-                  f"missing conjuncts {missing}: a tensor that is still needed elsewhere (e.g. a subgraph output) can be overwritten in place")
+                  "elementwise in-place reuse requires: one consumer entry (subgraph-output markers count), one producer, not write protected, not a variable tensor, same dtype and format",
+                  f"missing conjuncts {missing}: a tensor that is still needed elsewhere (a subgraph output; a variable tensor, which keeps its value between inferences: the state is destroyed by the first inference) can be overwritten in place")
     else:
         rep.bad("C12-d", f"{LR}:_get_ifm_to_fuse", "elementwise fuse condition", "not recognised")
     dma = [n for n in ast.walk(f) if isinstance(n, ast.If) and "len(ifm.consumer_list) > 1" in norm(n.test)]
     rep.check(len(dma) == 1, "C12-d", f"{LR}:_get_ifm_to_fuse", "memcpy reuse is refused when the input has more than one consumer entry", "")
+    rep.check(len(dma) == 1 and "ifm.is_variable" in norm(dma[0].test), "C12-d", f"{LR}:_get_ifm_to_fuse", "memcpy reuse is refused for a variable tensor", "the copy of a variable tensor may be elided into the state, which an in-place operator on the copy then overwrites")
     rep.floor("C12-d", 2)
 
     # ---------------------------------------------------------------- e
